@@ -126,7 +126,15 @@ def rule_helpers(rep: Report, repo: Repo):
     from .sem import kwcalls
     msc = Scope(repo.trees[MOD], None)
     texts = [norm(kwcalls(resolved(n.value, env_at(n, ev[0])), msc)) for n in rr]
-    ok = texts == ["_convert_if_zero(_convert_if_zero(operator[index[2:]], atol=atol)[index[0]][index[1]], atol=atol)"]
+    WANT = "_convert_if_zero(_convert_if_zero(operator[index[2:]], atol=atol)[index[0]][index[1]], atol=atol)"
+    ok = texts == [WANT]
+    if not ok:
+        # understood and wrong: the same expression with other block indices; anything else (another way of obtaining the term, ...)
+        # is not understood
+        import re as _re
+        shape_ = _re.escape(WANT).replace(_re.escape("[index[0]][index[1]]"), r"\[index\[\d\]\]\[index\[\d\]\]")
+        if not (len(texts) == 1 and _re.fullmatch(shape_, texts[0])):
+            raise AnalysisError(R, f"_unpack_blocks.op_eval returns `{(texts or ['?'])[0][:100]}`: not the (i, j) element of the term read from the packed series")
     rep.check(ok, R, f"{MOD}::_unpack_blocks block (i, j) of a nested-list term is term[i][j]", str(texts), loc(ev[0]))
     shp = [n for n in ast.walk(f) if isinstance(n, ast.Call) and call_name(n) == "BlockSeries"]
     ok = False
